@@ -147,6 +147,21 @@ type assignEntry struct {
 
 // resolveAssign resolves an assigns path such as "v.asc", "v.*", "data[*]", "v.input.transactions[*]".
 func (e *Exec) resolveAssign(st *State, fn *ssa.Function, params map[string]Value, path string) assignEntry {
+	if path == "ghost.ioerr" {
+		return assignEntry{prefix: "ghost:ioerr", ref: IntConst(0), text: path}
+	}
+	if strings.HasPrefix(path, "ghost.rd(") || strings.HasPrefix(path, "ghost.wr(") {
+		inner := strings.TrimSuffix(path[len("ghost.rd("):], ")")
+		ae := e.resolveAssign(st, fn, params, inner)
+		// the location holds the reader/writer value: its reference identifies the stream
+		var val Value
+		for _, c := range []string{""} {
+			_ = c
+		}
+		val = e.valueAt(st, fn, params, inner)
+		_ = ae
+		return assignEntry{prefix: "ghost:" + path[len("ghost."):len("ghost.rd")] + ".", ref: streamRef(val), text: path}
+	}
 	elems := false
 	if strings.HasSuffix(path, "[*]") {
 		elems = true
@@ -214,6 +229,45 @@ func (e *Exec) resolveAssign(st *State, fn *ssa.Function, params map[string]Valu
 	}
 	l := e.locOf(p)
 	return assignEntry{prefix: l.Key, ref: l.Idx[0], text: path}
+}
+
+// valueAt evaluates a path such as "v.r" or "w" to the value stored there.
+func (e *Exec) valueAt(st *State, fn *ssa.Function, params map[string]Value, path string) Value {
+	parts := strings.Split(path, ".")
+	cur, ok := params[parts[0]]
+	if !ok {
+		panic(unsupported("assigns: unknown root " + parts[0] + " in " + fnName(fn)))
+	}
+	for _, f := range parts[1:] {
+		p, ok := cur.(*PtrV)
+		if !ok || p.Kind != PObj {
+			panic(unsupported("assigns: cannot select ." + f + " in " + path))
+		}
+		l := e.locOf(p)
+		st2, isStruct := l.T.Underlying().(*types.Struct)
+		if !isStruct {
+			panic(unsupported("assigns: " + path + ": not a struct at ." + f))
+		}
+		idx := -1
+		for i := 0; i < st2.NumFields(); i++ {
+			if st2.Field(i).Name() == f {
+				idx = i
+			}
+		}
+		if idx < 0 {
+			panic(unsupported("assigns: no field " + f + " in " + path))
+		}
+		np := *p
+		np.Path = append(append([]int(nil), p.Path...), idx)
+		if _, isS := st2.Field(idx).Type().Underlying().(*types.Struct); isS {
+			if _, g := ghostStruct(st2.Field(idx).Type()); !g {
+				cur = &np
+				continue
+			}
+		}
+		cur = st.LoadLoc(e.locOf(&np))
+	}
+	return cur
 }
 
 func (e *Exec) checkAssigns(st *State, fr *Frame, l Loc, pos token.Pos) {
@@ -303,6 +357,9 @@ func (e *Exec) callContract(st *State, fr *Frame, sp *FnSpec, fn *ssa.Function, 
 	}
 	env := e.resultEnv(st, cf, rs)
 	savedFB := e.freshBase
+	savedOld := e.oldState
+	e.oldState = pre
+	defer func() { e.oldState = savedOld }()
 	e.freshBase = oldTop
 	for _, c := range sp.Ensures {
 		st.Assume(e.evalSpec(st, cf, c, env, false))
@@ -425,11 +482,13 @@ func (e *Exec) VerifyFunction(sp *FnSpec, prop string) (err error) {
 	fr.entryTop = st.Top()
 	fr.entry = st.Clone()
 	e.curEntry = fr.entry
+	e.oldState = fr.entry
 	env0 := func(n string, t types.Type) (Value, bool) { return e.topEnvLookup(st, fr, n, t) }
 	for _, c := range sp.Requires {
 		st.Assume(e.evalSpec(st, fr, c, env0, false))
 	}
 	fr.entry = st.Clone()
+	e.oldState = fr.entry
 	e.topAssigns = nil
 	for _, a := range sp.Assigns {
 		e.topAssigns = append(e.topAssigns, e.resolveAssign(st, fn, fr.params, a))
@@ -454,6 +513,26 @@ func (e *Exec) VerifyFunction(sp *FnSpec, prop string) (err error) {
 		}
 		nret++
 		env := e.resultEnv(o.st, fr, o.results)
+		if sp.hasContract() && !sp.Lemma {
+			// ghost stream cells written during the call must belong to streams named in the assigns clause
+			seen := map[string]bool{}
+			for _, g := range o.st.gw[len(fr.entry.gw):] {
+				id := g.key + "@" + fmt.Sprint(g.ref.ID)
+				if seen[id] {
+					continue
+				}
+				seen[id] = true
+				var alts []*Term
+				for _, a := range e.topAssigns {
+					if strings.HasPrefix(g.key, a.prefix) {
+						alts = append(alts, Eq(g.ref, a.ref))
+					}
+				}
+				if goal := Or(alts...); goal != True {
+					e.obligeNamed(o.st, e.curFn+"#frame.ghost."+g.key, "frame", nil, sp.Pos, goal)
+				}
+			}
+		}
 		if panicCond != nil {
 			e.obligeNamed(o.st, e.curFn+"#panics_iff.returns-only-if-not", "ensures", sp.PanicsIff.Labels, sp.Pos, Not(panicCond))
 		}
@@ -509,10 +588,4 @@ func (e *Exec) chanRecv(st *State, fr *Frame, x *ssa.UnOp, ch Value) Value {
 }
 func (e *Exec) sliceEmbeddedArray(st *State, fr *Frame, a *PtrV, x *ssa.Slice, get func(ssa.Value, *Term) *Term) Value {
 	panic(unsupported("slicing an array embedded in an object"))
-}
-func (e *Exec) ghostPrimitive(st *State, fr *Frame, fn *ssa.Function, args []Value, pos token.Pos) ([]Outcome, bool) {
-	return nil, false
-}
-func (e *Exec) invokeModel(st *State, fr *Frame, cc *ssa.CallCommon, recv *IfaceV, args []Value, pos token.Pos) ([]Outcome, bool) {
-	return nil, false
 }
